@@ -66,6 +66,16 @@ def make_cases(tier, seed):
                 hR, hZ = 1.0 / (nR - 1), 1.4 / (nZ - 1)
                 cases.append({"id": len(cases) + 1, "family": "two_o_aspect", "lobes": [[1, 1.83 + dr * hR, 0.04 + dz * hZ, 0.22], [0.9, 1.5 + dr * hR, -0.42 + dz * hZ, 0.22]],
                               "nR": nR, "nZ": nZ, "sign": sign, "psinorm_sol": 1.1, "nx_inter_sep": 0, "notok": 1})
+    # an X-point behind a coil lobe that is STRONGER than the plasma: on the straight line from the axis psi first goes beyond the axis value
+    # and then falls to the X-point's - not monotone, so that X-point is not returned (seeded change C19_monotone_filter_abs kept it,
+    # because |psi - psi_axis| still has its maximum at the X-point)
+    for (nR, nZ) in res[:2]:
+        for sign in (1, -1):
+            for (dr, dz) in [(0.0, 0.0), (0.37, 0.21)]:
+                hR, hZ = 1.0 / (nR - 1), 1.4 / (nZ - 1)
+                cases.append({"id": len(cases) + 1, "family": "strong_coil",
+                              "lobes": [[1, 1.5 + dr * hR, 0.05 + dz * hZ, 0.16], [1.4, 1.5 + dr * hR, -0.30 + dz * hZ, 0.12], [0.15, 1.5 + dr * hR, -0.62 + dz * hZ, 0.08]],
+                              "nR": nR, "nZ": nZ, "sign": sign, "psinorm_sol": 1.1, "nx_inter_sep": 0, "notok": 1})
     # tilted, elongated critical points (the mixed second derivative is not zero): quadratic O- and X-points, and a lower single null with a
     # tilted elliptical core
     for (nR, nZ) in res[:2]:
